@@ -528,7 +528,7 @@ def cycle_budget(prog):
             steps += (node["end"][0] if node.get("end") else 12) + 1
             for y in node.get("ys") or []:
                 if y:
-                    big = max(big, float(y))
+                    big = max(big, abs(float(y)))     # Doer.tock stores abs(): a negative yield may act as its magnitude
     return int(steps * (big / tock + 2) * 2) + 20
 
 
